@@ -414,8 +414,10 @@ def run_c10_removal(ctx, n):
 
 # ---- C09 -------------------------------------------------------------------------------------------
 
-def final_of(spec, params, hashes=None, chashes=None, twice=False, junk=0):
+def final_of(spec, params, hashes=None, chashes=None, twice=False, junk=0, id_seed=None):
     keep = [object() for _ in range(junk)]
+    if id_seed is not None:
+        spec = dict(spec, id_seed=id_seed)
     project = build(spec, hashes=hashes, chashes=chashes)
     real_simulate(project, params)
     if twice:
@@ -455,6 +457,8 @@ def run_c09(ctx):
             base = base_h["states"][0]
             nT, nC = len(spec["tasks"]), len(spec.get("components", []))
             variants = [("simulate called twice on the same object", dict(twice=True)),
+                        ("same model with other ID strings", dict(id_seed=rng.randrange(1, 1000))),
+                        ("same model with other ID strings (2)", dict(id_seed=rng.randrange(1000, 2000))),
                         ("model rebuilt at other addresses", dict(junk=rng.randint(1000, 50000)))]
             k = 3 if ctx.tier == "quick" else 8
             for _ in range(k):
